@@ -166,7 +166,16 @@ pub fn run_shard<C: Check>(tier: Tier, seed: u64, shard: u32, nshards: u32, curr
             let _ = std::fs::write(p, serde_json::to_string(&case).unwrap());
         }
         heartbeat();
+        let enospc_before = crate::iosim::INJECTED_ENOSPC.load(std::sync::atomic::Ordering::SeqCst);
         let verdict = C::run(&case, &ctx);
+        // a real ENOSPC of the scratch file system (none injected during this case) is an infrastructure problem
+        let verdict = match verdict {
+            Err(v) if v.msg.contains("No space left on device") && !v.msg.starts_with("INFRA:") && crate::iosim::INJECTED_ENOSPC.load(std::sync::atomic::Ordering::SeqCst) == enospc_before => Err(Violation {
+                step: v.step,
+                msg: format!("INFRA: the scratch file system ran out of space (ENOSPC from the OS, none injected in this case): {}", v.msg),
+            }),
+            other => other,
+        };
         ctx.scratch.sweep();
         let counting = !*failed.borrow();
         match verdict {
